@@ -50,7 +50,9 @@ _REF_PATH = os.path.join(os.path.dirname(os.path.abspath(__file__)), "reference_
 def load_reference() -> Optional[Set[str]]:
     try:
         with open(_REF_PATH) as f:
-            return set(json.load(f)["functions"])
+            d = json.load(f)
+            # class names too: a reference class re-implemented as a function of the same name is still an anchor
+            return set(d["functions"]) | set(d.get("classes", []))
     except (OSError, ValueError, KeyError):
         return None
 
